@@ -32,6 +32,11 @@ type c17case struct {
 	LibImp int     `json:"lib_imports"`   // file imported by lib/l100.yaml (the first file of the directory), -1 = none
 	Break  int     `json:"break"`         // index of a file made missing/broken (-1 none); -2 = a file of the directory
 	How    string  `json:"how"`           // missing | syntax | wrongtype
+	// LibExplicit: every importer of the directory "lib" also imports, by name and after the directory, files of
+	// that directory the directory import does not pick up (lib/extra.json, lib/more.toml)
+	LibExplicit bool `json:"lib_files_also_imported_by_name,omitempty"`
+	// CaseTwin: the root also imports two files whose names differ only in letter case
+	CaseTwin bool `json:"names_differing_in_case_only,omitempty"`
 }
 
 func relPath(from, to string) string {
@@ -71,6 +76,12 @@ func runC17(c *h.Ctx, idx int, cs c17case) {
 		}
 		if usesDir[i] {
 			imps = append(imps, relPath(c17path(i), "lib"))
+			if cs.LibExplicit {
+				imps = append(imps, relPath(c17path(i), "lib/extra.json"), relPath(c17path(i), "lib/more.toml"))
+			}
+		}
+		if cs.CaseTwin && i == cs.Root {
+			imps = append(imps, "Twin.yaml", "twin.yaml")
 		}
 		content := fileDef(i, imps)
 		if i == cs.Break {
@@ -101,6 +112,15 @@ func runC17(c *h.Ctx, idx int, cs c17case) {
 		h.WriteFile(real+"/lib/l101.yaml", l101)
 		h.WriteFile(real+"/lib/ignored.json", "{\"tasks\": {\"task_json\": {\"command\": [\"true\"]}}}")
 		h.WriteFile(real+"/lib/ignored.txt", "not a configuration")
+		if cs.LibExplicit {
+			h.WriteFile(real+"/lib/extra.json", "{\"tasks\": {\"task_200\": {\"command\": [\"true\"]}}, \"pipelines\": {\"pipe_200\": [{\"task\": \"task_200\"}]}, \"contexts\": {\"ctx_200\": {\"env\": {\"A\": \"1\"}}}}")
+			h.WriteFile(real+"/lib/more.toml", "[tasks.task_201]\ncommand = [\"true\"]\n[[pipelines.pipe_201]]\ntask = \"task_201\"\n[contexts.ctx_201.env]\nA = \"1\"\n")
+		}
+	}
+	if cs.CaseTwin {
+		rd := filepath.Dir(real + "/" + c17path(cs.Root))
+		h.WriteFile(rd+"/Twin.yaml", fileDef(300, nil))
+		h.WriteFile(rd+"/twin.yaml", fileDef(301, nil))
 	}
 	// oracle: BFS closure
 	seen := map[int]bool{cs.Root: true}
@@ -129,6 +149,12 @@ func runC17(c *h.Ctx, idx int, cs c17case) {
 	}
 	if dirReached {
 		want = append(want, "task_100", "task_101")
+		if cs.LibExplicit {
+			want = append(want, "task_200", "task_201")
+		}
+	}
+	if cs.CaseTwin {
+		want = append(want, "task_300", "task_301")
 	}
 	sort.Strings(want)
 	brokenInClosure := (cs.Break >= 0 && seen[cs.Break]) || (cs.Break == -2 && dirReached)
@@ -340,6 +366,9 @@ func c17(c *h.Ctx) {
 	// a file of the directory imports a sibling that sorts later in the same directory
 	cases = append(cases, c17case{N: 1, Edges: [][]int{{}}, Root: 0, DirImp: []int{0}, Break: -1, LibImp: -1, LibSib: true})
 	cases = append(cases, c17case{N: 2, Edges: [][]int{{1}, {}}, Root: 0, DirImp: []int{1}, Break: -1, LibImp: 0, LibSib: true})
+	cases = append(cases, c17case{N: 1, Edges: [][]int{{}}, Root: 0, DirImp: []int{0}, Break: -1, LibImp: -1, LibExplicit: true})
+	cases = append(cases, c17case{N: 2, Edges: [][]int{{1}, {}}, Root: 0, DirImp: []int{1}, Break: -1, LibImp: -1, LibExplicit: true, CaseTwin: true})
+	cases = append(cases, c17case{N: 2, Edges: [][]int{{1}, {0}}, Root: 1, Break: -1, LibImp: -1, CaseTwin: true})
 	for i := 0; i < c.N(150, 6000); i++ {
 		n := rnd.Range(4, 6)
 		edges := make([][]int, n)
@@ -363,7 +392,9 @@ func c17(c *h.Ctx) {
 			if rnd.Chance(30) {
 				cs.DirImp = append(cs.DirImp, rnd.Intn(n))
 			}
+			cs.LibExplicit = rnd.Chance(40)
 		}
+		cs.CaseTwin = rnd.Chance(20)
 		if rnd.Chance(30) {
 			cs.Break = rnd.Intn(n)
 			cs.How = []string{"missing", "syntax", "wrongtype"}[rnd.Intn(3)]
